@@ -7,7 +7,7 @@ from lib import enginecheck as ec
 from lib import h_engine, simenv
 from lib.vf import Ctx
 
-KINDS = ["append", "truncate", "edit", "insert", "delete", "same"]
+KINDS = ["append", "truncate", "edit", "insert", "delete", "same", "edit_debug", "respell", "edit_debug"]
 
 
 def edit(rng, job, variant, lines, kind, pos):
@@ -24,6 +24,20 @@ def edit(rng, job, variant, lines, kind, pos):
         new.insert(pos, simenv.random_command_text(rng, job, variant))
     elif kind == "delete" and len(new) > 1:
         del new[pos]
+    elif kind == "edit_debug":
+        # change only the expression of an existing console line (or plant one early in the plan)
+        idx = [i for i, l in enumerate(new) if l.startswith("!debug")]
+        k = rng.randint(1, 9)
+        if idx:
+            new[rng.choice(idx)] = '!debug "viewer(\'clock\') + %d"' % k
+        else:
+            new.insert(rng.randint(0, min(8, len(new))), '!debug "viewer(\'clock\') + %d"' % k)
+    elif kind == "respell":
+        # same meaning, different text: ELAPSE 100 -> ELAPSE 100.0, CAST x -> USE x
+        idx = [i for i, l in enumerate(new) if l.startswith(("ELAPSE", "CAST"))]
+        if idx:
+            i = rng.choice(idx)
+            new[i] = ("ELAPSE %s" % repr(float(new[i].split()[1]) + 0.0) + "0") if new[i].startswith("ELAPSE") else "USE" + new[i][4:]
     return new or ["ELAPSE 1"]
 
 
@@ -57,6 +71,8 @@ def run(ctx: Ctx) -> int:
         rng = ctx.rng
         n = rng.choice([9, 11, 12, 19, 21, 23, 31]) if si % 2 == 0 else rng.randint(3, 26)
         prev = simenv.random_plan(rng, job, variant, n)
+        if rng.random() < 0.6:      # an early console line, before the first retained checkpoint
+            prev.insert(rng.randint(0, min(6, len(prev))), '!debug "viewer(\'clock\')"')
         hops, cur, kinds = [], prev, []
         for _h in range(rng.choice([1, 2, 3])):
             kind = rng.choice(KINDS)
